@@ -475,15 +475,18 @@ impl<'a> Model<'a> {
                 array = Some(*r);
             }
         }
-        let formula_or_value = self
-            .get_cell_formula(sheet, source_row, source_column)?
-            .unwrap_or_else(|| {
-                source_cell.get_localized_text(
-                    &self.workbook.shared_strings,
-                    self.locale,
-                    self.language,
-                )
-            });
+        let formula_or_value = match self.get_cell_formula(sheet, source_row, source_column)? {
+            Some(f) => f,
+            None => {
+                // A value: move the cell as it is. Re-entering its text would re-interpret it
+                // (a quote prefixed '123 would become the number 123)
+                let cell = source_cell.clone();
+                let worksheet = self.workbook.worksheet_mut(sheet)?;
+                worksheet.update_cell(target_row, target_column, cell)?;
+                worksheet.remove_cell(source_row, source_column)?;
+                return Ok(());
+            }
+        };
 
         if let Some((width, height)) = array {
             // We are moving an array formula, we need to move the whole range
